@@ -119,7 +119,7 @@ class RuleResult:
 
     def floor(self, n, what="instances"):
         if len(self.instances) < n:
-            self.anchor(what, "rule %s matched %d %s, fewer than the %d confirmed by hand: the rule would pass vacuously" % (self.rule, len(self.instances), what, n))
+            self.anchor(what, "rule %s matched %d %s, fewer than the minimum of %d without which the rule would pass vacuously" % (self.rule, len(self.instances), what, n))
 
 
 class Ctx:
